@@ -1,6 +1,7 @@
 //@include inc/model_base_u128.rs
 //@include inc/price.rs
 //@include inc/perp_tracked.rs
+//@include inc/increase_position.rs
 // =================================================================================================
 // C07  Open interest and collateral totals always match the open positions  (per-operation deltas)
 //      crates/model/src/position.rs                 :: PositionMutExt::update_open_interest
@@ -9,61 +10,12 @@
 //      crates/model/src/action/decrease_position/mod.rs :: DecreasePosition::execute is in verus/C07_decrease.rs
 // =================================================================================================
 verus! {
-// ---- IncreasePosition ------------------------------------------------------------------------------------------------
-//@struct crates/model/src/action/increase_position.rs :: pub struct IncreasePositionParams<T> :: collateral_increment_amount, size_delta_usd, acceptable_price, prices
-#[derive(Clone, Copy)]
-pub struct IncreasePositionParams { pub collateral_increment_amount: N, pub size_delta_usd: N, pub acceptable_price: Option<N>, pub prices: Prices }
-//@struct crates/model/src/action/increase_position.rs :: pub struct ExecutionParams<Unsigned, Signed> :: price_impact_value, price_impact_amount, size_delta_in_tokens, execution_price
-#[derive(Clone, Copy)]
-pub struct ExecutionParams { pub price_impact_value: S, pub price_impact_amount: S, pub size_delta_in_tokens: N, pub execution_price: N }
-impl ExecutionParams {
-//@unit C07.ExecutionParams.price_impact_amount
-//@ file crates/model/src/action/increase_position.rs
-//@ within impl<T: Unsigned> ExecutionParams<T, T::Signed>
-//@ fn price_impact_amount
-//@ sig fn price_impact_amount(&self) -> &T::Signed
-    pub fn price_impact_amount(&self) -> (r: &S) ensures *r == self.price_impact_amount
-//@body
-}
-pub struct ExecutionParamsWithPriceImpact { pub execution: ExecutionParams, pub price_impact: PriceImpact }
-/// opaque fee record (its arithmetic is C02)
-pub struct PositionFees { pub tag: u64 }
-impl PositionFees {
-    #[verifier::external_body] pub fn total_cost_amount(&self) -> (r: Result<N, E>) { unimplemented!() }
-    #[verifier::external_body] pub fn for_receiver(&self) -> (r: Result<N, E>) { unimplemented!() }
-    #[verifier::external_body] pub fn for_pool(&self) -> (r: Result<N, E>) { unimplemented!() }
-}
-pub struct CollateralDelta { pub tag: u64 }
-impl CollateralDelta {
-    #[verifier::external_body] pub fn new(next_size_in_usd: N, next_collateral_amount: N, realized_pnl_value: S, open_interest_delta: S) -> (r: CollateralDelta) { unimplemented!() }
-}
-pub struct WillCollateralBeSufficient { pub ok: bool }
-impl WillCollateralBeSufficient { pub fn is_sufficient(&self) -> (r: bool) ensures r == self.ok { self.ok } }
-//@struct crates/model/src/action/increase_position.rs :: pub struct IncreasePositionReport<Unsigned, Signed> :: params, execution, collateral_delta_amount, fees, claimable_funding_long_token_amount, claimable_funding_short_token_amount
-pub struct IncreasePositionReport { pub params: IncreasePositionParams, pub execution: ExecutionParams, pub collateral_delta_amount: S, pub fees: PositionFees }
-impl IncreasePositionReport {
-    /// glue: the report constructor copies its arguments (the two claimable amounts are read from the fees)
-    pub fn new(params: IncreasePositionParams, execution: ExecutionParams, collateral_delta_amount: S, fees: PositionFees) -> (r: IncreasePositionReport)
-        ensures r.params == params, r.execution == execution, r.collateral_delta_amount == collateral_delta_amount
-    { IncreasePositionReport { params, execution, collateral_delta_amount, fees } }
-}
 impl Pos {
-    /// ASSUMED: arbitrary fees / sufficiency verdict (their arithmetic is C02 / C09 material)
+    /// ASSUMED here (read-only; under contract in C09)
     #[verifier::external_body]
-    pub fn position_fees(&self, collateral_price: &Price, size_delta_usd: &N, balance_change: BalanceChange, is_liquidation: bool) -> (r: Result<PositionFees, E>) { unimplemented!() }
-    #[verifier::external_body]
-    pub fn will_collateral_be_sufficient(&self, prices: &Prices, delta: &CollateralDelta) -> (r: Result<WillCollateralBeSufficient, E>) { unimplemented!() }
-    #[verifier::external_body]
-    pub fn collateral_price<'a>(&self, prices: &'a Prices) -> (r: &'a Price) { unimplemented!() }
+    pub fn validate(&self, prices: &Prices, a: bool, b: bool) -> (r: Result<(), E>) { unimplemented!() }
 }
-
-pub struct IncreasePosition { pub position: Pos, pub params: IncreasePositionParams }
 impl IncreasePosition {
-    /// the non-trivial part of get_execution_params (price impact, execution price): ASSUMED arbitrary
-    #[verifier::external_body]
-    fn get_execution_params_for_nonzero_size(&self) -> (r: Result<ExecutionParamsWithPriceImpact, E>) { unimplemented!() }
-    fn default_price_impact() -> (r: PriceImpact) { PriceImpact { value: S(0), balance_change: BalanceChange::Unchanged } }
-
 //@unit C07.IncreasePosition.get_execution_params
 //@ file crates/model/src/action/increase_position.rs
 //@ within impl<const DECIMALS: u8, P: PositionMut<DECIMALS>> IncreasePosition<P, DECIMALS>
